@@ -9,11 +9,14 @@ import (
 	"hash/fnv"
 	"os"
 	"path/filepath"
+	"regexp"
+	"runtime"
 	"runtime/debug"
 	"sort"
 	"strings"
 	"sync"
 	"testing"
+	"time"
 
 	"pgregory.net/rapid"
 )
@@ -389,4 +392,56 @@ func Run[C any](t *testing.T, prop, slot string, gen func(*rapid.T) C, run func(
 			rt.Fatalf("[%s] %s", res.Fail.Sig, res.Fail.Msg)
 		}
 	})
+}
+
+var reGoroutineHdr = regexp.MustCompile(`^goroutine (\d+) \[([^\],]+)`)
+
+var parkedStates = map[string]bool{"chan receive": true, "chan send": true, "select": true, "semacquire": true, "sync.Cond.Wait": true,
+	"sync.Mutex.Lock": true, "sync.RWMutex.Lock": true, "sync.RWMutex.RLock": true, "chan receive (nil chan)": true, "chan send (nil chan)": true, "select (no cases)": true}
+
+// WaitParked waits for done. While waiting it dumps all goroutine stacks every
+// step; if a goroutine whose stack mentions needle is parked (channel, mutex,
+// select) with the same top frame in two consecutive dumps, it returns
+// (true, that stack): the call is blocked for good, judged by stack evidence
+// rather than by the clock alone. A goroutine that is merely slow (runnable /
+// running / in a syscall) is waited for. After cap without either outcome the
+// case is inconclusive.
+func WaitParked(done <-chan struct{}, needle string, step, cap time.Duration) (bool, string) {
+	start := time.Now()
+	prev := map[string]string{}
+	for {
+		select {
+		case <-done:
+			return false, ""
+		case <-time.After(step):
+		}
+		buf := make([]byte, 4<<20)
+		dump := string(buf[:runtime.Stack(buf, true)])
+		cur := map[string]string{}
+		for _, g := range strings.Split(dump, "\n\n") {
+			if !strings.Contains(g, needle) {
+				continue
+			}
+			m := reGoroutineHdr.FindStringSubmatch(g)
+			if m == nil || !parkedStates[m[2]] {
+				continue
+			}
+			lines := strings.SplitN(g, "\n", 4)
+			top := ""
+			if len(lines) > 1 {
+				top = lines[1]
+			}
+			cur[m[1]] = m[2] + "@" + top
+			if prev[m[1]] == cur[m[1]] {
+				if len(g) > 2500 {
+					g = g[:2500]
+				}
+				return true, g
+			}
+		}
+		prev = cur
+		if time.Since(start) > cap {
+			Inconclusive("a call mentioning %q has not returned after %v but is not provably parked (machine too busy?)", needle, time.Since(start))
+		}
+	}
 }
